@@ -7,6 +7,7 @@ import (
 	"net"
 	"os"
 	"path/filepath"
+	"runtime/debug"
 	"sort"
 	"strconv"
 	"strings"
@@ -14,6 +15,7 @@ import (
 
 	"pgregory.net/rapid"
 
+	"verifharness/model"
 	"verifharness/stats"
 )
 
@@ -145,3 +147,21 @@ func lower(s string) string { return strings.ToLower(s) }
 func getenv(k string) string { return os.Getenv(k) }
 
 func netParseIP(s string) bool { return net.ParseIP(s) != nil }
+
+// apiGuard runs a judge that calls zlint's public API directly (registry, filter,
+// JSON, helper functions). Valid calls must not panic: a panic whose stack runs
+// through zlint's own code is a violation (signature = top zlint frame); a panic
+// confined to the harness is re-raised (inconclusive, a harness bug).
+func apiGuard(f func() (string, string)) (sig, msg string) {
+	defer func() {
+		if p := recover(); p != nil {
+			st := string(debug.Stack())
+			fr := model.TopZlintFrame(st)
+			if fr == "?" {
+				panic(p)
+			}
+			sig, msg = "api-panic|"+fr, fmt.Sprintf("zlint panics on a valid API call: %v (at %s)", p, fr)
+		}
+	}()
+	return f()
+}
